@@ -219,7 +219,10 @@ C03_WholeBodies ==
   { <<Whole(c)>> : c \in {"file", "line", "word"} } \cup { <<[k |-> "whole", c |-> c, neg |-> TRUE], Cls("any")>> : c \in {"file", "line", "word"} }
     \cup { <<Whole("word"), Loop(0, 1, FALSE, Lit(<<sp>>)), Whole("word")>>, <<Cap("w", Whole("word"))>>, <<Whole("line"), Lit(<<nl>>), Whole("line")>>,
            <<Anc("linestart"), Whole("word"), Anc("wordend")>>, <<Loop(1, -1, FALSE, Grp(<<Whole("word"), Lit(<<sp>>)>>))>>,
-           <<Lit(<<sp>>), Whole("word")>>, <<Anc("filestart"), Whole("file"), Anc("fileend")>> }
+           <<Lit(<<sp>>), Whole("word")>>, <<Anc("filestart"), Whole("file"), Anc("fileend")>>,
+           \* a consuming whole-unit directly followed by a literal (the literal's first byte is not the match's first byte)
+           <<Whole("word"), Lit(<<sp>>)>>, <<Whole("line"), Lit(<<nl>>)>>, <<Anc("linestart"), Whole("line"), Lit(<<nl>>), La>>,
+           <<Cap("w", Whole("word")), Lit(<<sp>>), Lb>>, <<Whole("word"), La>>, <<Anc("wordstart"), Whole("word"), Lit(<<nl>>)>> }
 
 (* ===================================================================== C04 *)
 C04_BodiesQ == { <<Lit(<<ba, ba>>)>>, <<Loop(1, -1, FALSE, La)>>, <<La, Loop(0, 1, FALSE, La)>>,
